@@ -994,6 +994,15 @@ func (dc *ClientDnsConnection) getUpstreamMtu() uint32 {
 	return uint32(math.Floor(space))
 }
 
+// isTimeout reports whether err is a timed-out exchange. Query wraps the communicator's error, so look at the cause.
+func isTimeout(err error) bool {
+	cause := errors.Cause(err)
+	if ne, ok := cause.(net.Error); ok && ne.Timeout() {
+		return true
+	}
+	return cause == smux.ErrTimeout
+}
+
 // SendAndReceive will send a chunk of data to the server (if available). If not it will "just" send a ping and
 // receive any data waiting for the client.
 func (dc *ClientDnsConnection) SendAndReceive(chunk *util.Packet) error {
@@ -1008,7 +1017,7 @@ func (dc *ClientDnsConnection) SendAndReceive(chunk *util.Packet) error {
 
 	for i := 1; i <= 5; i++ {
 		timeout := time.Duration(i) * time.Second
-		if resp, err := dc.Query(req, timeout); err == smux.ErrTimeout {
+		if resp, err := dc.Query(req, timeout); isTimeout(err) {
 			if i == 5 {
 				return err
 			} else {
